@@ -52,7 +52,10 @@ def tensor(rng):
 def w_from_array(ctx, rng, idx):
     x, rows, cols, kind = tensor(rng)
     d = len(rows)
-    if not np.any(x):
+    if rng.random() < 0.03:
+        x = np.zeros_like(x)  # the zero tensor (a vanishing residual, an empty data set): every bound of the statement is 0 for it
+        kind = 'zero_tensor'
+    if not np.any(x) and kind != 'zero_tensor':
         return
     if rng.random() < 0.06:
         # arrays whose entries are all tiny or all huge (1e-170..1e-155, 1e145..1e150): normal doubles, but their squares are not
@@ -119,6 +122,9 @@ def w_ortho_trunc(ctx, rng, idx):
                 t_ = gen.provenance(np.random.default_rng(hist_seed), t_, steps=int(hist_seed % 3) + 1, reorder=True)
             return t_
     with_history = rng.random() < 0.4
+    if rng.random() < 0.03:
+        cores = [np.zeros((1 if i == 0 else 2, rows[i], cols[i], 1 if i == d - 1 else 2)) for i in range(d)]  # the zero tensor with ranks 2
+        kind, with_history = 'zero_tensor', False
     mr = int(rng.integers(1, 5))
     mrl = [1] + [int(rng.integers(1, 5)) for _ in range(d - 1)] + [1]
     thr = float(10 ** rng.uniform(-8, np.log10(0.5)))
